@@ -25,7 +25,7 @@ TransportRunner::write_packet call passes exch_index = None, except the dropped-
 close_session == false (no retransmission pending); (g) in ReliableMessage::post_recv no MRP state is written on a path that ends
 in Err(Duplicate): a dropped stale-ACK message cannot change the acknowledgement a pending retransmission piggy-backs.
 """
-CLAUSES = ['a: message counter reused only for retransmissions', 'c: retransmittable builders are idempotent (once-guards)', 'd: session ids unique among live sessions',
+CLAUSES = ['a: message counter reused only for retransmissions, incremented by one and stored unreduced', 'c: retransmittable builders are idempotent (once-guards; a builder that advances the transcript does not read it)', 'd: session ids unique among live sessions',
            'e: exchange ids unique among live exchanges', 'f: transport-generated packets never borrow an exchange\'s retransmission counter', 'g: dropped duplicates leave the piggy-backed ACK unchanged',
            'h: a message header is built from a reset header, never on top of the previous user of the shared TX packet']
 NOT_DECIDED = ['bit-for-bit identity of retransmissions at run time', 'monotonicity under every schedule', 'piggy-backed acknowledgement stability against a peer that omits the ACK flag on a new message']
